@@ -2221,31 +2221,19 @@ impl Element for XmlElement {
 
     fn attributes(&self) -> UnorderedSet<XmlNode<XmlAttribute>> {
         let mut items = self.attributes_specified();
-
-        for attr in self.declaration_att_defs().iter() {
-            if attr.value != XmlDeclarationAttDefault::Implied
-                && !items
-                    .iter()
-                    .any(|v| equal_qname(v.borrow().qname(), attr.qname()))
-            {
-                // the defaulted attribute belongs to this element: its declared type (and with it the
-                // normalization of its value) is looked up through the owner
-                let defaulted = XmlAttribute::new_from_declaration(attr, self.context());
-                defaulted.borrow_mut().set_parent_id(Some(self.id()));
-                items.push(defaulted);
-            }
-        }
-
+        items.extend(self.attributes_defaulted(false));
         UnorderedSet::new(items)
     }
 
     fn namespace_attributes(&self) -> UnorderedSet<XmlNode<XmlAttribute>> {
-        let items = self
+        // A namespace declaration may be provided by an attribute-list default as well.
+        let mut items: Vec<XmlNode<XmlAttribute>> = self
             .attributes
             .iter()
             .filter_map(|v| v.as_attribute())
             .filter(|v| v.borrow().namespace())
             .collect();
+        items.extend(self.attributes_defaulted(true));
         UnorderedSet::new(items)
     }
 
@@ -2496,6 +2484,32 @@ impl XmlElement {
                     .any(|i| equal_qname(v.borrow().qname(), i.qname()))
             })
             .collect()
+    }
+
+    // Attributes supplied by attribute-list defaults for names the start tag does not carry: the
+    // namespace declarations among them (`namespace`), or the others.
+    fn attributes_defaulted(&self, namespace: bool) -> Vec<XmlNode<XmlAttribute>> {
+        let mut items = vec![];
+
+        for attr in self.declaration_att_defs().iter() {
+            if attr.value != XmlDeclarationAttDefault::Implied
+                && !self
+                    .attributes
+                    .iter()
+                    .filter_map(|v| v.as_attribute())
+                    .any(|v| equal_qname(v.borrow().qname(), attr.qname()))
+            {
+                // the defaulted attribute belongs to this element: its declared type (and with it the
+                // normalization of its value) is looked up through the owner
+                let defaulted = XmlAttribute::new_from_declaration(attr, self.context());
+                if defaulted.borrow().namespace() == namespace {
+                    defaulted.borrow_mut().set_parent_id(Some(self.id()));
+                    items.push(defaulted);
+                }
+            }
+        }
+
+        items
     }
 
     fn attributes_specified(&self) -> Vec<XmlNode<XmlAttribute>> {
